@@ -226,6 +226,9 @@ class Evaluator:
                 continue
             if isinstance(st, ast.Raise):
                 return ("RAISE", norm(st.exc) if st.exc else "")
+            if isinstance(st, ast.FunctionDef) and not st.decorator_list and not st.args.vararg and not st.args.kwarg:
+                env[st.name] = ("CLOSURE", st, env)         # a local helper: evaluated at its call sites
+                continue
             raise OrdUnknown(f"{fi.name}: statement `{norm(st, 60)}` not understood")
         return None
 
@@ -310,6 +313,23 @@ class Evaluator:
         if isinstance(t, ast.BoolOp):
             vals = [self.test(fi, x, env) for x in t.values]
             return all(vals) if isinstance(t.op, ast.And) else any(vals)
+        # all(<test of n> for n in (a, b, ..)) / any(..): the display is unrolled
+        if isinstance(t, ast.Call) and isinstance(t.func, ast.Name) and t.func.id in ("all", "any") and len(t.args) == 1 \
+                and isinstance(t.args[0], (ast.GeneratorExp, ast.ListComp)) and len(t.args[0].generators) == 1 \
+                and not t.args[0].generators[0].ifs and isinstance(t.args[0].generators[0].iter, (ast.Tuple, ast.List)) \
+                and isinstance(t.args[0].generators[0].target, ast.Name):
+            g_ = t.args[0].generators[0]
+            vals = []
+            for item in g_.iter.elts:
+                class Rn(ast.NodeTransformer):
+                    def visit_Name(s_, nn):
+                        if nn.id == g_.target.id and isinstance(nn.ctx, ast.Load):
+                            import copy as _cp
+                            return _cp.deepcopy(item)
+                        return nn
+                import copy as _cp2
+                vals.append(self.test(fi, Rn().visit(_cp2.deepcopy(t.args[0].elt)), env))
+            return all(vals) if t.func.id == "all" else any(vals)
         if isinstance(t, ast.UnaryOp) and isinstance(t.op, ast.Not):
             return not self.test(fi, t.operand, env)
         raise OrdUnknown(f"{fi.name}: test `{norm(t)}` not understood")
@@ -360,6 +380,9 @@ class Evaluator:
         if isinstance(e, ast.Name):
             if e.id in env:
                 return env[e.id]
+            t_ = self.prog.resolve_name(fi.module, e.id)
+            if t_.kind == "func" and t_.ref in self.prog.functions:
+                return ("FUNCREF", t_.ref)                  # a helper passed around as a value
             raise OrdUnknown(f"{fi.name}: unbound name {e.id}")
         if isinstance(e, ast.Constant):
             return self.const(e)
@@ -443,6 +466,12 @@ class Evaluator:
             return self.element(base, "first")
         if isinstance(sl, ast.UnaryOp) and isinstance(sl.op, ast.USub) and isinstance(sl.operand, ast.Constant) and sl.operand.value == 1:
             return self.element(base, "last")
+        # x[len(y) - 1] with len(y) == len(x) (same source, whole list) is the last element
+        if isinstance(sl, ast.BinOp) and isinstance(sl.op, ast.Sub) and isinstance(sl.right, ast.Constant) and sl.right.value == 1 \
+                and isinstance(sl.left, ast.Call) and isinstance(sl.left.func, ast.Name) and sl.left.func.id == "len" and len(sl.left.args) == 1:
+            inner = self.expr(fi, sl.left.args[0], env)
+            if isinstance(inner, L) and inner.src == base.src and inner.window == ("ALL",) and base.window == ("ALL",):
+                return self.element(base, "last")
         raise OrdUnknown(f"{fi.name}: index `{norm(sl)}`")
 
     @staticmethod
@@ -510,6 +539,44 @@ class Evaluator:
                     return L(v.src, v.kind, "ASC" if d.endswith("nsmallest") else "DESC", ("FIRST", self.scalar_text(fi, c.args[0], env)), True)
         if isinstance(f, ast.Name) and isinstance(env.get(f.id), tuple) and env[f.id] and env[f.id][0] == "FUNC" and len(c.args) == 2:
             return self._heapq(fi, env[f.id][1], c, env)
+        if isinstance(f, ast.Name) and isinstance(env.get(f.id), tuple) and env[f.id] and env[f.id][0] in ("CLOSURE", "FUNCREF"):
+            kind_ = env[f.id][0]
+            if kind_ == "FUNCREF":
+                callee = self.prog.functions[env[f.id][1]]
+                a = callee.node.args
+                params = [x.arg for x in a.posonlyargs + a.args]
+                args = {}
+                for p_, x in zip(params, c.args):
+                    args[p_] = self.expr(fi, x, env)
+                for k in c.keywords:
+                    if k.arg is None:
+                        raise OrdUnknown(f"{fi.name}: **kwargs in call of {callee.name}")
+                    args[k.arg] = self.expr(fi, k.value, env)
+                return self.call_helper(callee, args)
+            node_, outer_env = env[f.id][1], env[f.id][2]
+            params = [x.arg for x in node_.args.posonlyargs + node_.args.args]
+            defaults = dict(zip(params[len(params) - len(node_.args.defaults):], node_.args.defaults))
+            local = dict(outer_env)
+            local.update({k_: v_ for k_, v_ in env.items() if k_ not in local})
+            for p_, x in zip(params, c.args):
+                local[p_] = self.expr(fi, x, env)
+            for k in c.keywords:
+                if k.arg is None or k.arg not in params:
+                    raise OrdUnknown(f"{fi.name}: call of local helper {f.id} with unknown keyword")
+                local[k.arg] = self.expr(fi, k.value, env)
+            for p_ in params:
+                if p_ not in local or (p_ not in [pp for pp, _x in zip(params, c.args)] and p_ not in [k.arg for k in c.keywords]):
+                    if p_ in defaults:
+                        local[p_] = self.const(defaults[p_])
+                    elif p_ not in local:
+                        raise OrdUnknown(f"{fi.name}: parameter {p_} of local helper {f.id} not bound")
+            self.depth += 1
+            try:
+                if self.depth > 12:
+                    raise OrdUnknown("helper recursion too deep")
+                return self.block(fi, node_.body, local)
+            finally:
+                self.depth -= 1
         if isinstance(f, ast.Name):
             if f.id in ("list", "tuple") and len(c.args) == 1:
                 v = self.expr(fi, c.args[0], env)
